@@ -1,0 +1,12 @@
+//go:build !verif
+// +build !verif
+
+package service
+
+// Without the build tag "verif" the verification hooks are empty.
+
+func verifYield(bf *buffer, site string) {}
+
+func verifSvcYield(svc *service, site string) {}
+
+func verifEvent(ev string, svc *service, a, b, c int64, s string) {}
